@@ -122,6 +122,10 @@ pub trait Check: Sync + Send {
         vec![]
     }
     fn run(&self, src: &mut Src, ctx: &mut RunCtx) -> RunResult;
+    /// Fixed number of worker threads (e.g. 1 when process-wide counts matter).
+    fn workers(&self) -> Option<usize> {
+        None
+    }
     /// Once per batch, after the runs (for checks with a non-sampled part).
     fn finish(&self, _tier: Tier, _agg: &mut Agg) -> Vec<Violation> {
         vec![]
@@ -371,9 +375,9 @@ pub fn run_check(check: &dyn Check, tier: Tier, seed: u64, runs_override: Option
         .ok()
         .and_then(|s| s.parse().ok())
         .unwrap_or(budget.max_secs);
-    let nthreads: usize = std::env::var("VERIF_WORKERS")
+    let nthreads: usize = check.workers().or_else(|| std::env::var("VERIF_WORKERS")
         .ok()
-        .and_then(|s| s.parse().ok())
+        .and_then(|s| s.parse().ok()))
         .unwrap_or_else(|| {
             std::thread::available_parallelism()
                 .map(|n| n.get())
